@@ -114,11 +114,8 @@ Variable okey : str -> str.
 (** the hex form of sha256 is never empty *)
 Hypothesis okey_ne : forall a, okey a <> [].
 
-(** the blob's stored form is the part's own text — or the part is empty and
-    the blob lives in the object store (blobHoldsContent compares GetBlob's ""
-    for an S3 row with the empty content) *)
-Definition form_ok (f : form) (own : str) : Prop :=
-  form_is_own okey f own = true \/ (own = [] /\ exists k, f = FS3 k).
+(** the blob's stored form is the part's own text *)
+Definition form_ok (f : form) (own : str) : Prop := form_is_own okey f own = true.
 
 Definition row_ok (bl : list blobrow) (r : partrow) : Prop :=
   match r_blob r with
@@ -293,12 +290,10 @@ Lemma blob_holds_form bl id content f stored :
 Proof.
   intros C H b Hb. unfold blob_holds in H. rewrite Hb in H.
   destruct C as [[-> ->]|[-> ->]].
-  - destruct (b_form b) as [c|k] eqn:E.
-    + left. exact H.
-    + right. apply str_eqb_eq in H. split; [symmetry; exact H|eauto].
+  - destruct (b_form b) as [c|k] eqn:E; [exact H|discriminate].
   - destruct (okey content) as [|c0 k0] eqn:EK; [exfalso; eapply okey_ne; eassumption|].
     destruct (b_form b) as [c|k] eqn:E; [discriminate|].
-    left. simpl. rewrite EK. exact H.
+    unfold form_ok. simpl. rewrite EK. exact H.
 Qed.
 
 Lemma new_row_holds bl kk f stored content :
